@@ -367,6 +367,13 @@ def c07_calls(tier, r):
                 calls.append(call('make', gen.content_for_mode(r, mode, n), micro=micro))
         calls.append(call('make', gen.sjis_text(r, n)))
         calls.append(call('make', gen.utf8_text(r, n)))
+        # the same with ECI requested: the mode is still the first applicable one (an ECI header only accompanies byte segments)
+        for mode in ('numeric', 'alphanumeric', 'byte', 'kanji'):
+            calls.append(call('make', gen.content_for_mode(r, mode, n), eci=True))
+            calls.append(call('make', gen.content_for_mode(r, mode, n), eci=True, micro=False, error='M'))
+        calls.append(call('make', gen.sjis_text(r, n), eci=True))
+        calls.append(call('make', gen.utf8_text(r, n), eci=True))
+        calls.append(call('make', gen.kanji(r, n).encode('shift_jis'), eci=True))
         calls.append(call('make', int(gen.digits(r, n)) + 10 ** n))
     # kanji content with the encoding given in various spellings (no requested mode): still the most compact mode
     for enc in ('shift_jis', 'Shift_JIS', 'sjis', 'shift-jis', 'SJIS', 'cp932'):
